@@ -364,16 +364,31 @@ impl BadToken {
         let mut p = Printer::new(Style::canonical());
         p.module(&c.m);
         let toks = p.toks;
-        let at = if toks.is_empty() { 0 } else { c.at % (toks.len() + 1) };
+        let mut at = if toks.is_empty() { 0 } else { c.at % (toks.len() + 1) };
+        // "pub>kw": a `pub` right in front of an occurrence of the keyword `kw` that starts a construct which
+        // takes no visibility (a vftable block, an impl block, a use, a backend block, another `pub`)
+        let mut tok = c.tok.clone();
+        if let Some(kw) = c.tok.strip_prefix("pub>") {
+            let sites: Vec<usize> = (0..toks.len())
+                .filter(|&i| toks[i] == kw && (kw != "vftable" || toks.get(i + 1).map(|s| s == "{").unwrap_or(false)) && (i == 0 || toks[i - 1] != "fn"))
+                .collect();
+            if sites.is_empty() {
+                tok = "@".into();
+            } else {
+                at = sites[c.at % sites.len()];
+                tok = "pub".into();
+            }
+        }
+        let c_tok = tok;
         let mut text = String::new();
         let (mut line, mut col) = (1usize, 1usize);
         let mut pos = (1, 1);
         for (i, tok) in toks.iter().enumerate() {
             if i == at {
                 pos = (line, col);
-                text.push_str(&c.tok);
+                text.push_str(&c_tok);
                 text.push(' ');
-                col += c.tok.chars().count() + 1;
+                col += c_tok.chars().count() + 1;
             }
             text.push_str(tok);
             for ch in tok.chars() {
@@ -397,7 +412,7 @@ impl BadToken {
         }
         if at >= toks.len() {
             pos = (line, col);
-            text.push_str(&c.tok);
+            text.push_str(&c_tok);
         }
         (text, pos.0, pos.1)
     }
@@ -408,7 +423,7 @@ impl Prop for BadToken {
         "C18/bad-token".into()
     }
     fn rule(&self) -> String {
-        "valid module with one token that no production accepts (@ $ ? %) inserted at a token boundary with known (line,col); oracle: parse_str returns Err whose start position is >= 1:1 and not after the inserted token. Non-trivial: module has >=1 item and the token is not inserted at the very start".into()
+        "valid module with one token that no production accepts (@ $ ? %) inserted at a token boundary with known (line,col), or a `pub` inserted right in front of a construct that takes no visibility (a vftable block, impl, use, another pub; `pub backend ...` is accepted by the parser and left out); oracle: parse_str returns Err whose start position is >= 1:1 and not after the inserted token (for an inserted `pub`: not after the following line). Non-trivial: module has >=1 item and the token is not inserted at the very start".into()
     }
     fn gen(&self, t: &mut Tape) -> BadTokCase {
         let m = gen_gmod(t);
@@ -416,7 +431,7 @@ impl Prop for BadToken {
             m,
             style: 0,
             at: t.below(4096) as usize,
-            tok: t.pick(&["@", "$", "?", "%"]).to_string(),
+            tok: t.pick(&["@", "$", "?", "%", "@", "$", "pub>vftable", "pub>impl", "pub>use", "pub>pub"]).to_string(),
         }
     }
     fn judge(&self, c: &BadTokCase) -> Outcome {
@@ -425,7 +440,8 @@ impl Prop for BadToken {
             Err(p) => Outcome::fail("panic", format!("parser panicked: {p}\n{text}")),
             Ok(Ok(_)) => Outcome::fail("accepted", format!("text with stray `{}` at {l0}:{c0} was accepted\n{text}", c.tok)),
             Ok(Err((e, l, col))) => {
-                let ok = l >= 1 && (l, col) <= (l0, c0);
+                // an inserted `pub` is a legal token where it stands: the parser may only notice at the next one
+                let ok = l >= 1 && ((l, col) <= (l0, c0) || (c.tok.starts_with("pub>") && l <= l0 + 1));
                 if ok {
                     Outcome::pass(!c.m.items.is_empty() && (l0, c0) != (1, 1))
                 } else {
